@@ -247,12 +247,18 @@ type fakeSource struct {
 	next    int
 	stopped bool
 	acks    int
+	tornDown bool
 }
 
 func (f *fakeSource) ID() string                   { return "src" + strconv.Itoa(f.s) }
 func (f *fakeSource) Open(context.Context) error   { return nil }
 func (f *fakeSource) Errors() <-chan error         { return nil }
-func (f *fakeSource) Teardown(context.Context) error { return nil }
+func (f *fakeSource) Teardown(context.Context) error {
+	f.mu.Lock()
+	f.tornDown = true
+	f.mu.Unlock()
+	return nil
+}
 
 func (f *fakeSource) Read(ctx context.Context) ([]opencdc.Record, error) {
 	f.h.lat("read", f.s, f.next, 0)
@@ -291,16 +297,23 @@ func (f *fakeSource) Ack(_ context.Context, ps []opencdc.Position) error {
 	f.mu.Lock()
 	k := f.acks
 	f.acks++
+	dead := f.tornDown
 	f.mu.Unlock()
 	r := byte('o')
 	if k < len(f.h.sc.sa[f.s]) {
 		r = f.h.sc.sa[f.s][k]
+	}
+	if dead {
+		// the plugin is gone (plugin.ErrPluginNotRunning): the ack is lost, the position not persisted
+		r = 't'
 	}
 	for _, p := range ps {
 		s, i := parsePos(p)
 		f.h.log("S:%s:%s:%c", s, i, r)
 	}
 	switch r {
+	case 't':
+		return errors.New("plugin is not running: ack after source teardown")
 	case 'r':
 		return errors.New("source ack failed")
 	case 'f':
@@ -410,7 +423,11 @@ func (f *fakeDest) Write(_ context.Context, recs []opencdc.Record) error {
 			res = 'f'
 		}
 		if ok {
-			f.h.log("W:%d:%d:%d:%c", f.d, s, i, res)
+			st := r.Metadata["vp"]
+			if st == "" {
+				st = "-"
+			}
+			f.h.log("W:%d:%d:%d:%c:%s", f.d, s, i, res, st)
 		} else {
 			f.h.log("W:%d:?:?:%c", f.d, res)
 		}
@@ -679,7 +696,14 @@ func (p *fakeProc) Process(_ context.Context, recs []opencdc.Record) []sdk.Proce
 	case 'n':
 		return []sdk.ProcessedRecord{nil}
 	}
-	return []sdk.ProcessedRecord{sdk.SingleRecord(r)}
+	// stamp the record: what reaches a destination shows which processors it went through
+	r2 := r.Clone()
+	stamp := fmt.Sprintf("%c%dk%d", p.seg, p.x, p.k)
+	if old := r2.Metadata["vp"]; old != "" {
+		stamp = old + "+" + stamp
+	}
+	r2.Metadata["vp"] = stamp
+	return []sdk.ProcessedRecord{sdk.SingleRecord(r2)}
 }
 
 // ---- building the node graph the way lifecycle.Service.buildNodes does
@@ -814,12 +838,21 @@ func runScenario(sc *scenario) (string, []string) {
 	done := make(chan struct{})
 	go func() { wg.Wait(); close(done) }()
 
+	// 'g': a user's stop (lifecycle.Service.Stop passes no reason); 's' and the natural end: process
+	// shutdown (Service.StopAll passes the non-nil pipeline.ErrGracefulShutdown, which SourceNode.Run
+	// then returns)
 	graceful := func() {
-		h.log("X:g")
+		var reason error = errGraceful
+		if sc.stopKind == 'g' {
+			reason = nil
+			h.log("X:g")
+		} else {
+			h.log("X:s")
+		}
 		sctx, c := context.WithTimeout(context.Background(), 2*time.Second)
 		defer c()
 		for _, n := range srcNodes {
-			_ = n.Stop(sctx, errGraceful)
+			_ = n.Stop(sctx, reason)
 		}
 	}
 	force := func() {
@@ -859,7 +892,7 @@ func runScenario(sc *scenario) (string, []string) {
 		select {
 		case <-done:
 		case <-h.stopCh:
-			if sc.stopKind == 'g' {
+			if sc.stopKind == 'g' || sc.stopKind == 's' {
 				graceful()
 			} else {
 				force()
